@@ -304,3 +304,24 @@ def corpus_block(draw, mutate=True):
                 [("DUP1", None), ("AND", None)], [("PUSH", B - 1), ("AND", None)]]))
             b[i:i] = snippet
     return b
+
+
+@st.composite
+def two_store_block(draw):
+    """two stores whose keys/addresses are symbolic (they collide on aliasing states) or equal constants"""
+    kind = draw(st.sampled_from(["SSTORE", "MSTORE", "MSTORE8"]))
+    kind2 = kind if kind == "SSTORE" else draw(st.sampled_from(["MSTORE", "MSTORE8"]))
+    form = draw(st.integers(0, 3))
+    pre = draw(body(min_len=0, max_len=4, profile=ARITH_PROFILE, allow_split=False, max_need=4)) if draw(st.booleans()) else []
+    mid = draw(st.sampled_from([[], [("DUP1", None), ("POP", None)], [("PUSH", 7)], [("CALLER", None), ("POP", None)]]))
+    if form == 0:
+        seq = [(kind, None)] + mid + [(kind2, None)]
+    elif form == 1:
+        a, b, c, d = [draw(st.integers(1, 4)) for _ in range(4)]
+        seq = [("DUP%d" % a, None), ("DUP%d" % b, None), (kind, None)] + mid + [("DUP%d" % c, None), ("DUP%d" % d, None), (kind2, None)]
+    elif form == 2:
+        k = draw(st.sampled_from([0, 1, 0x20, 0x3F, 0x40]))
+        seq = [("PUSH", draw(st.integers(1, 9))), ("PUSH", k), (kind, None)] + mid + [("PUSH", draw(st.integers(10, 19))), ("PUSH", k + draw(st.sampled_from([0, 0, 1, 31, 32]))), (kind2, None)]
+    else:
+        seq = [("DUP2", None), ("DUP2", None), (kind, None), ("DUP1", None), ("SLOAD" if kind == "SSTORE" else "MLOAD", None), ("SWAP2", None), ("SWAP1", None), (kind2, None)]
+    return pre + seq + draw(st.sampled_from([[], [("PUSH", 1)], [("STOP", None)]]))
